@@ -138,8 +138,8 @@ func init() {
 		NotDecided:  "that parse(print(m)) equals m on values (number formatting, shortest float printing, message-name lexing, ellipsis numbering beyond the nested samples) is a run-time-value question and is not decided.",
 		Assumptions: stdAssumptions})
 	register(&Property{ID: "C05", Title: "SML literals denote exactly the stored values",
-		Rules:       []Rule{only(rErr, "sml.parser"), only(rIface, "sml.parser", "consumer:"), rSMLTab, rDomSML, rErrSupp, only(rCkRep, "ast.New"), rLitSrc},
-		Explanation: "No conversion error of a literal is discarded except four documented, range-guarded Atoi calls (R9); each item parser hands its factory only types it accepts (R2); bitSize is 8 x the item's width, base 0, and keyword->width dispatch is right (R1e-sml); the parser diagnoses exactly the literals outside [0,255] for binary, above 127 for ASCII codes and quoted runes, outside [0,127]/[0,255] for stream/function, and a number followed by a letter, digit or underscore (R14-sml, as guard denotations in sink mode); any diagnosed input returns no message (R25); the factories' own range checks cannot be bypassed (R13). Each numeric item type is read by exactly one strconv function, also through helpers (R29).",
+		Rules:       []Rule{only(rErr, "sml.parser"), only(rIface, "sml.parser", "consumer:"), rSMLTab, rDomSML, rErrSupp, only(rCkRep, "ast.New"), rLitSrc, only(rMsgScope, "sml.parser.")},
+		Explanation: "No conversion error of a literal is discarded except four documented, range-guarded Atoi calls (R9); each item parser hands its factory only types it accepts (R2); bitSize is 8 x the item's width, base 0, and keyword->width dispatch is right (R1e-sml); the parser diagnoses exactly the literals outside [0,255] for binary, above 127 for ASCII codes and quoted runes, outside [0,127]/[0,255] for stream/function, and a number followed by a letter, digit or underscore (R14-sml, as guard denotations in sink mode); any diagnosed input returns no message (R25); the factories' own range checks cannot be bypassed (R13). Each numeric item type is read by exactly one strconv function, also through helpers (R29). What a literal denotes cannot depend on the literals read before it: the parser keeps no field that is written while items are parsed and survives them (a memo of converted literals), other than the diagnostics, the messages and the per-message name set that is reset (R20 on the parser's fields).",
 		NotDecided:  "that strconv's reading of a literal is the SML reading (trusted) and the lexer's number scanning beyond the terminator check are not decided.",
 		Assumptions: stdAssumptions})
 	register(&Property{ID: "C06", Title: "SML parser is total and all-or-nothing",
